@@ -224,7 +224,7 @@ class Wrappers(Suite):
 
 
 if __name__ == "__main__":
-    main("C20", [Moves(), Walks(), Reach(), Wrappers()],
+    main("C20", [Moves(), Walks(), Reach(), Wrappers()], gen_targets=["markov"],
          level_note="invariant proved for every move / every script (unbounded n, steps); randint/shuffle are inputs of the model "
                     "(scripted in the correspondence); n = 0 or m = 0 are outside the property's domain (n=0 makes numpy raise ValueError)",
          rule="moves: every dense vector of length <= 4 (thorough 5) x every element x the moves the code can apply to it (exhaustive); "
